@@ -4,12 +4,8 @@
    trained models are handed back to brew.  The theorems say that the results do not depend on them.
    Statements only; proofs in the files of the owning models. *)
 From Coq Require Import Permutation.
-<<<<<<< HEAD
-From Mokaverif Require Import Model.Base Model.Orders Model.Grouping Model.MatchDecoy
-  Proofs.OrdersP Proofs.GroupingP Proofs.MatchDecoyP.
-=======
-From Mokaverif Require Import Model.Base Model.Orders Model.Grouping Model.Brew Proofs.OrdersP Proofs.GroupingP Proofs.BrewEnsP.
->>>>>>> brew-ensemble
+From Mokaverif Require Import Model.Base Model.Orders Model.Grouping Model.MatchDecoy Model.Brew
+  Proofs.OrdersP Proofs.GroupingP Proofs.MatchDecoyP Proofs.BrewEnsP.
 Open Scope nat_scope.
 
 (* models fed back in any order (or delivered by worker threads in any order) are used in fold order *)
